@@ -61,7 +61,7 @@ inductive Body where
   | unsupported                            -- `>>|` and `<<<`
   | expErr                                 -- the operand's expansion fails
   | nulPath                                -- the expanded pathname contains a NUL byte (`NulByte`)
-  | fileCs (op : FileOp) (path : Nat)      -- the pathname comes out of a command substitution
+  | fileCs (op : FileOp) (path : Nat) (st : Nat)  -- the pathname comes out of a command substitution that exits with `st`
   deriving DecidableEq, Repr
 
 structure Redir where
@@ -81,6 +81,17 @@ inductive ErrCause where
   | unsupported
   | nulByte
   deriving DecidableEq, Repr
+
+/-- `perform_redir`'s `Option<ExitStatus>`: the exit status of the command substitution an operand contains -/
+def Body.csStatus : Body → Option Nat
+  | .fileCs _ _ st => some st
+  | _ => none
+
+/-- `perform_redirs`' result on a list that went through: `exit_status = new_exit_status.or(exit_status)`
+    item after item — the status of the LAST operand that contains a command substitution -/
+def csStatus : List Redir → Option Nat
+  | [] => none
+  | r :: rs => (csStatus rs).or r.body.csStatus
 
 /-- `SavedFd` -/
 structure SavedFd where
@@ -212,7 +223,7 @@ def prepare (o : Oracle W) (w : W) (t : FdTable) (b : Body) : R W FdSpec :=
   | .unsupported => { w := w, t := t, r := .error .unsupported }
   | .expErr => { w := w, t := t, r := .error .expansion }
   | .nulPath => { w := w, t := t, r := .error .nulByte }
-  | .fileCs op path =>
+  | .fileCs op path _ =>
     if (pipeAvailable o w t).2 then openNormalFile o (pipeAvailable o w t).1 t op path
     else { w := (pipeAvailable o w t).1, t := t, r := .error .expansion }
 
